@@ -267,8 +267,48 @@ def r5(ctx, R):
             R.violation("C04.R5", f.short, key(f, rets[-1]) if rets else "return", loc(f, rets[-1] if rets else f.node), "the result is returned in table order, not sorted by name")
 
 
+def r6(ctx, R):
+    """A statement reader decides what kind of statement a line *is*: its opener pattern is
+    applied at the start of the line (match(), or a pattern that is anchored itself).  With
+    search() an unanchored keyword pattern recognises the construct in the middle of other
+    statements (`WHERE (` inside `ELSEWHERE (mask)`), which opens a scope nothing closes."""
+    R.rule("C04.R6", "statement readers recognise their statement at the start of the line: the opener pattern is applied to the whole line with match() (or is anchored)", floor=15, confirmed=22)
+    _, tests = tag_producers(ctx)
+    for q in sorted(tests):
+        f = ctx.m.funcs[q]
+        if not f.params:
+            continue
+        line = f.params[0]
+        first = None
+        for c in sorted(calls_in(f.node), key=lambda c: (c.lineno, c.col_offset)):
+            if ctx.m.enclosing_func(c) is not f:
+                continue
+            if isinstance(c.func, ast.Attribute) and c.func.attr in ("match", "search", "fullmatch") and c.args and isinstance(c.args[0], ast.Name):
+                nm = ctx.p.fregex_ref(f.rel, c.func.value)
+                if nm:
+                    first = (c, nm)
+                    break
+        if first is None:
+            continue
+        c, nm = first
+        rx_ = ctx.p.named.get(nm)
+        k = f"FRegex.{nm}.{c.func.attr}({unparse(c.args[0])})"
+        if c.func.attr in ("match", "fullmatch"):
+            R.ok("C04.R6", f.short, k, loc(f, c), "applied at the start of the line")
+            continue
+        anchored = False
+        if rx_ is not None and rx_.tree is not None:
+            its = list(rex.items(rx_.tree))
+            anchored = bool(its) and its[0][0] is rex.C.AT and its[0][1] in (rex.C.AT_BEGINNING, rex.C.AT_BEGINNING_STRING)
+        if anchored:
+            R.ok("C04.R6", f.short, k, loc(f, c), "search() with a pattern anchored at the start")
+        else:
+            R.violation("C04.R6", f.short, k, loc(f, c), f"the reader looks for its opener anywhere in the line (search() with the unanchored pattern {rx_.text if rx_ is not None else nm!r}): other statements that contain the keyword (an ELSEWHERE with a mask, a name ending in the keyword) open this construct too, and the scope they open is never closed - the enclosing procedure runs to the end of the file and later units vanish from the outline")
+
+
 def run(ctx, R):
     r1_r2(ctx, R)
     r3(ctx, R)
     r4(ctx, R)
     r5(ctx, R)
+    r6(ctx, R)
